@@ -20,6 +20,8 @@ PROPS = {
                 {"harness": RT + "c08_increment_call_limit", "fn": "src/runtime.rs :: Runtime::increment_call_limit"},
                 {"harness": RT + "c08_reset_counters", "fn": "src/runtime.rs :: Runtime::{reset_ud_calls, reset_call_limit}"},
                 {"harness": RT + "c08_reset_then_call", "fn": "src/runtime.rs :: Runtime::{reset_call_limit, increment_call_limit}"},
+                {"harness": RT + "c08_search_iter_b3", "fn": "src/runtime.rs :: RuntimeLimits::search_iter",
+                 "bound": "search limit at most 3 (and the first 4 items of the unlimited stream)", "timeout": 600},
             ]},
             {"kind": "verus", "unit": "tail"},
             {"kind": "verus", "unit": "budget"},
